@@ -661,6 +661,41 @@ func constString(v ssa.Value) (string, bool) {
 	return "", false
 }
 
+// stateConst: v is a string constant, or the State field read back from a local struct (the session envelope a function
+// has just built) all of whose stores to that field are the same constant.
+func stateConst(v ssa.Value) (string, bool) {
+	v = stripConv(v)
+	if cs, ok := constString(v); ok {
+		return cs, true
+	}
+	u, ok := v.(*ssa.UnOp)
+	if !ok || u.Op != token.MUL {
+		return "", false
+	}
+	fa, ok := u.X.(*ssa.FieldAddr)
+	if !ok {
+		return "", false
+	}
+	f := structField(fa.X.Type(), fa.Field)
+	al, isAlloc := stripConv(fa.X).(*ssa.Alloc)
+	if f == nil || !isAlloc {
+		return "", false
+	}
+	sts := storesInto(al, f.Name())
+	if len(sts) == 0 {
+		return "", false
+	}
+	val := ""
+	for k, st := range sts {
+		cs, ok := constString(stripConv(st.Val))
+		if !ok || (k > 0 && cs != val) {
+			return "", false
+		}
+		val = cs
+	}
+	return val, true
+}
+
 func constInt(v ssa.Value) (int64, bool) {
 	c, ok := v.(*ssa.Const)
 	if !ok || c.Value == nil {
